@@ -1,0 +1,19 @@
+//go:build verif
+// +build verif
+
+package controller
+
+import (
+	"github.com/samaritan-proxy/samaritan/config"
+	"github.com/samaritan-proxy/samaritan/host"
+	"github.com/samaritan-proxy/samaritan/pb/config/service"
+	"github.com/samaritan-proxy/samaritan/proc"
+)
+
+// VerifSetNewProc replaces the processor constructor.
+func VerifSetNewProc(f func(name string, cfg *service.Config, hosts []*host.Host) (proc.Proc, error)) {
+	newProc = f
+}
+
+// VerifHandleEvent is handleEvent (one event, synchronously).
+func (c *Controller) VerifHandleEvent(evt config.Event) { c.handleEvent(evt) }
